@@ -131,7 +131,8 @@ def run_kinetics(ctx, jobs):
         m_free, m_chem, m_spec = res[3 * k], res[3 * k + 1], res[3 * k + 2]
         orc = L.oracle_rate(phys, x)
         chem = [int(v) for v in system.chemostats]
-        base_case = {"kind": "kinetics", "desc": jb["desc"], "phys": phys_dump(phys), "state": jb["state"], "U": list(U)}
+        base_case = {"kind": "kinetics", "desc": jb["desc"], "phys": phys_dump(phys), "state": jb["state"], "U": list(U),
+                     "chem": [int(v) for v in system.chemostats]}
         fp = fingerprint(jb["desc"])
         # Lean Spec == Python oracle (exact)
         if m_spec is not None:
@@ -214,7 +215,7 @@ def run_dxdtf(ctx, jobs):
         x_si = [Fraction(v) * fq for v in jb["xU"]]
         orc = L.oracle_rate(phys, x_si)
         chem = [int(v) for v in system.chemostats]
-        case = {"kind": "dxdtf", "desc": jb["desc"], "phys": phys_dump(phys), "U": list(U), "xU": jb["xU"]}
+        case = {"kind": "dxdtf", "desc": jb["desc"], "phys": phys_dump(phys), "U": list(U), "xU": jb["xU"], "chem": chem}
         try:
             f = system.make_dxdtf(L.us_obj(U))
             out = [float(v) for v in f(0.0, list(jb["xU"]))]
@@ -263,7 +264,8 @@ def run_euler(ctx, jobs):
         phys, system = jb["phys"], jb["system"]
         n, ns = phys["n"], phys["ns"]
         Us = jb["Uscript"]
-        case = {"kind": "euler", "desc": jb["desc"], "phys": phys_dump(phys), "state": jb["state"], "Uscript": list(Us), "dt_nat": jb["dt_nat"]}
+        case = {"kind": "euler", "desc": jb["desc"], "phys": phys_dump(phys), "state": jb["state"], "Uscript": list(Us), "dt_nat": jb["dt_nat"],
+                "chem": [int(v) for v in system.chemostats]}
         try:
             script, traj = euler_run(system, Us, jb["dt_nat"], 2)
         except Exception as ex:  # noqa
@@ -387,6 +389,8 @@ def replay(ctx, rec):
     case = rec.get("case", rec)
     phys = phys_load(case["phys"])
     system = L.build_system(case["desc"])
+    if case.get("chem") is not None:
+        system.chemostats = list(case["chem"])
     out = {"kind": case["kind"]}
     if case["kind"] == "kinetics":
         st_ = case["state"]
